@@ -182,7 +182,11 @@ fn get_key(name: &Name) -> Vec<u8> {
     name.get_labels()
         .iter()
         .rev()
-        .flat_map(|label| label.to_string().into_bytes())
+        // each label is prefixed with its length, so that one key is a prefix of another
+        // only when the labels themselves are (`printer.office` is not under `officeprinter`)
+        .flat_map(|label| {
+            std::iter::once(label.len() as u8).chain(label.as_bytes().iter().copied())
+        })
         .collect()
 }
 
